@@ -496,6 +496,54 @@ func init() {
 		p, _ := m.Extra["flagsParsed"].(bool)
 		return m.S.Bool(p)
 	})
+	// sync/atomic: sequentially consistent loads/stores on cells
+	for _, n := range []string{"LoadPointer", "LoadInt32", "LoadInt64", "LoadUint32", "LoadUint64", "LoadUintptr"} {
+		reg("sync/atomic."+n, func(m *Machine, fn *ssa.Function, a []Value) Value { return m.load(a[0].(Ptr)) })
+	}
+	for _, n := range []string{"StorePointer", "StoreInt32", "StoreInt64", "StoreUint32", "StoreUint64", "StoreUintptr"} {
+		reg("sync/atomic."+n, func(m *Machine, fn *ssa.Function, a []Value) Value { m.store(a[0].(Ptr), a[1]); return nil })
+	}
+	for _, n := range []string{"AddInt32", "AddInt64", "AddUint32", "AddUint64", "AddUintptr"} {
+		reg("sync/atomic."+n, func(m *Machine, fn *ssa.Function, a []Value) Value {
+			v := m.S.Add(m.load(a[0].(Ptr)).(*Term), a[1].(*Term))
+			m.store(a[0].(Ptr), v)
+			return v
+		})
+	}
+	for _, n := range []string{"CompareAndSwapInt32", "CompareAndSwapInt64", "CompareAndSwapUint32", "CompareAndSwapUint64", "CompareAndSwapPointer", "CompareAndSwapUintptr"} {
+		reg("sync/atomic."+n, func(m *Machine, fn *ssa.Function, a []Value) Value {
+			cur := m.load(a[0].(Ptr))
+			if m.Branch(m.valEq(cur, a[1])) {
+				m.store(a[0].(Ptr), a[2])
+				return m.S.True
+			}
+			return m.S.False
+		})
+	}
+	sortSlice := func(m *Machine, fn *ssa.Function, a []Value) Value {
+		sl, ok := a[0].(Iface).V.(Slice)
+		if !ok {
+			m.unsupported("sort.Slice on a non-slice")
+		}
+		less := a[1].(*Closure)
+		if sl.Len < 2 {
+			return nil
+		}
+		arr := (*m.cell(sl.Base)).(*ArrayV)
+		idx := func(i int) *Term { return m.S.Const(64, uint64(i)) }
+		for i := 1; i < sl.Len; i++ {
+			for j := i; j > 0; j-- {
+				lt := m.CallClosure(less, []Value{idx(j), idx(j - 1)}).(*Term)
+				if !m.Branch(lt) {
+					break
+				}
+				arr.E[sl.Off+j], arr.E[sl.Off+j-1] = arr.E[sl.Off+j-1], arr.E[sl.Off+j]
+			}
+		}
+		return nil
+	}
+	reg("sort.Slice", sortSlice)
+	reg("sort.SliceStable", sortSlice)
 	reg("math/rand.Uint64", func(m *Machine, fn *ssa.Function, a []Value) Value { return m.Nondet("rand", 64) })
 	reg("time.Now", func(m *Machine, fn *ssa.Function, a []Value) Value {
 		return m.zero(fn.Signature.Results().At(0).Type())
